@@ -2,6 +2,7 @@ package main
 
 import (
 	"bufio"
+	"bytes"
 	"encoding/hex"
 	"fmt"
 	"math"
@@ -26,7 +27,7 @@ import (
 //
 // A Push between a Pop and its Discard is outside the documented contract and is never produced.
 func init() {
-	components["slots"] = &component{gen: slotsGen, enum: slotsEnum, run: slotsRun}
+	components["slots"] = &component{gen: slotsGen, enum: slotsEnum, run: slotsRun, direct: slotsDirect}
 }
 
 func slHx(b []byte) string {
@@ -432,4 +433,112 @@ func slotsRun(script []string, w *bufio.Writer) {
 		}
 		fmt.Fprintf(w, "< %s\n", out)
 	}
+}
+
+// slotsDirect: SlotSequencer.Reset() with packets still parked, followed by DiscardAll on the buffer and further use (the
+// modelled workflow resets a bare offsetter only when nothing is held). Oracle: a map from sequence number to the bytes
+// saved under it. After the reset nothing is parked (Size() = Bytes() = 0, no number is found) and the sequencer behaves
+// like a new one: every Pop addresses exactly the bytes parked under that number.
+func slotsDirect(seed uint64, tier string, args []string, w *bufio.Writer) {
+	trials := 800
+	if tier == "thorough" {
+		trials = 20000
+	}
+	r := newRng(seed*31 + 7)
+	fails := 0
+	fail := func(format string, a ...any) {
+		if fails++; fails <= 3 {
+			fmt.Fprintf(w, "DIRECT-FAIL key=slots.reset-while-parked %s\n", fmt.Sprintf(format, a...))
+		}
+	}
+	for t := 0; t < trials && fails == 0; t++ {
+		func() {
+			defer func() {
+				if p := recover(); p != nil {
+					fail("panic: %v", p)
+				}
+			}()
+			maxSlots, maxBytes := r.pick(4, 8, 11, 16), r.pick(32, 64, 100, 128)
+			b := sonic.NewByteBuffer()
+			sq := sonic.NewSlotSequencer(maxSlots, maxBytes)
+			parked := map[int][]byte{}
+			var order []int
+			next := 1
+			var trace []string
+			park := func() {
+				n := 1 + r.intn(6)
+				p := r.bytes(n)
+				seq := next
+				next++
+				b.Write(p)
+				b.Commit(n)
+				slot := b.Save(n)
+				ok, err := sq.Push(seq, slot)
+				trace = append(trace, fmt.Sprintf("park %d (%d bytes)=%v,%v", seq, n, ok, err))
+				if !ok || err != nil {
+					b.Discard(slot)
+					return
+				}
+				parked[seq] = p
+				order = append(order, seq)
+			}
+			take := func() bool {
+				if len(order) == 0 {
+					return true
+				}
+				i := r.intn(len(order))
+				seq := order[i]
+				order = append(order[:i], order[i+1:]...)
+				slot, ok := sq.Pop(seq)
+				trace = append(trace, fmt.Sprintf("take %d=%v", seq, ok))
+				if !ok {
+					fail("sequence number %d is parked but Pop does not find it after %v", seq, trace)
+					return false
+				}
+				if slot.Index < 0 || slot.Length < 0 || slot.Index+slot.Length > b.SaveLen() || !bytes.Equal(b.SavedSlot(slot), parked[seq]) {
+					fail("Pop(%d) addresses [%d,%d) of a save area of %d bytes, not the %d bytes parked under it, after %v", seq, slot.Index, slot.Index+slot.Length, b.SaveLen(), len(parked[seq]), trace)
+					return false
+				}
+				b.Discard(slot)
+				delete(parked, seq)
+				return true
+			}
+			for round := 0; round < 3; round++ {
+				for i, n := 0, 2+r.intn(8); i < n; i++ {
+					if r.intn(3) == 0 {
+						if !take() {
+							return
+						}
+					} else {
+						park()
+					}
+				}
+				if sq.Size() != len(parked) {
+					fail("Size() = %d with %d packets parked after %v", sq.Size(), len(parked), trace)
+					return
+				}
+				// reset with whatever is parked; the application drops the save area as well
+				sq.Reset()
+				b.DiscardAll()
+				trace = append(trace, "Reset+DiscardAll")
+				for seq := range parked {
+					if _, ok := sq.Pop(seq); ok {
+						fail("sequence number %d is still found after Reset (%v)", seq, trace)
+						return
+					}
+				}
+				parked, order = map[int][]byte{}, nil
+				if sq.Size() != 0 || sq.Bytes() != 0 {
+					fail("Size() = %d, Bytes() = %d after Reset (%v)", sq.Size(), sq.Bytes(), trace)
+					return
+				}
+			}
+			for len(order) > 0 {
+				if !take() {
+					return
+				}
+			}
+		}()
+	}
+	fmt.Fprintf(w, "DIRECT-STAT {\"slots_reset_while_parked_trials\": %d, \"slots_reset_while_parked_failures\": %d}\n", trials, fails)
 }
